@@ -596,6 +596,7 @@ package pubsub
 //@        calls((*GossipSubRouter).flush) == old(calls((*GossipSubRouter).flush)) + 1
 //@   requires state: sepMesh(gs) && sepBackoff(gs) && sepFanout(gs) && validBackoffParams(gs) && gs.direct != nil && sepUnwanted(gs)
 //@   requires history: gs.mcache != nil && mcRep(gs.mcache)
+//@   requires wf: wfGS(gs)
 //@   requires gossip-params: gs.p != nil && gs.params.MaxIHaveLength >= 0 && gs.params.Dlazy >= 0 && gs.params.GossipFactor >= 0.0
 //@   noframe
 //@   loop 1 invariant stable: hbStable(gs) && hbMaps(scores, tograft, toprune, noPX)
@@ -646,6 +647,7 @@ package pubsub
 //@   at call shufflePeers#2 forget
 //@   at call sort.Slice#1 forget
 //@   at call peerMapToList forget all
+//@   at call sendGraftPrune assert the-queued-lists: $arg1 == tograft && $arg2 == toprune && $arg3 == noPX
 //@   at call heartbeat$4 assert score-ok: $arg0 in scores && scores[$arg0] >= 0.0
 
 // ---- C06: recipients of a published / forwarded message (gossipsub) ----
@@ -891,3 +893,36 @@ package pubsub
 //@   ensures counters-reset: len(gs.peerdontwant) == 0
 //@   ensures aged-by-one-tick: forall q string, c checksum :: agedEntry(gs, q, c)
 //@   ensures sep: sepUnwanted(gs)
+
+// ---- C07/C08: coalesced GRAFT/PRUNE at the end of a heartbeat ----
+//
+// sendGraftPrune sends one RPC per peer named in tograft or toprune: a peer to graft gets one
+// GRAFT per listed topic (in order) plus, if it is also being pruned elsewhere, one PRUNE per
+// listed topic, and is then removed from toprune so that the second loop does not prune it again;
+// the remaining peers of toprune get one PRUNE per listed topic. Every PRUNE is built by
+// makePrune for that peer and topic, with peer exchange only if enabled and not vetoed (noPX)
+// for that peer, and never as an unsubscribe PRUNE.
+//@ func (*GossipSubRouter).sendGraftPrune
+//@   property C07 C08 C09
+//@   requires wf: wfGS(gs) && tograft != nil && toprune != nil && tograft != toprune
+//@   noframe
+//@   loop 2 invariant grafts-listed: len(graft) == rangeindex + 1 && len(graft) <= len(topics) && fresh(graft) &&
+//@        (forall i int :: 0 <= i && i < len(graft) ==> graft[i] != nil && allocated(graft[i]) && graft[i].TopicID != nil && allocated(graft[i].TopicID) && graftTopic(graft[i]) == topics[i])
+//@   loop 3 invariant prunes-listed: len(prune) == rangeindex + 1 && len(prune) <= len(pruning) &&
+//@        calls((*GossipSubRouter).makePrune) - iter(calls((*GossipSubRouter).makePrune)) == rangeindex + 1
+//@   loop 5 invariant prunes-listed: len(prune) == rangeindex + 1 && len(prune) <= len(topics) &&
+//@        calls((*GossipSubRouter).makePrune) - iter(calls((*GossipSubRouter).makePrune)) == rangeindex + 1
+//@   at call makePrune assert prune-of-this-peer: $arg1 == p && $arg2 == topic && $arg3 == (gs.doPX && !noPX[p]) && !$arg4
+//@   at call sendRPC#1 assert grafts-and-prunes-coalesced: $arg1 == p && !$arg3 && $arg2 == lastret(rpcWithControl) &&
+//@        len(lastarg(rpcWithControl, 0)) == 0 && len(lastarg(rpcWithControl, 1)) == 0 && len(lastarg(rpcWithControl, 2)) == 0 && len(lastarg(rpcWithControl, 5)) == 0 &&
+//@        len(lastarg(rpcWithControl, 3)) == len(topics) &&
+//@        (forall i int :: 0 <= i && i < len(topics) ==> lastarg(rpcWithControl, 3)[i] != nil && graftTopic(lastarg(rpcWithControl, 3)[i]) == topics[i]) &&
+//@        len(lastarg(rpcWithControl, 4)) == ite(iter(p in toprune), len(iter(toprune[p])), 0)
+//@   at call sendRPC#2 assert remaining-prunes: $arg1 == p && !$arg3 && $arg2 == lastret(rpcWithControl) &&
+//@        len(lastarg(rpcWithControl, 0)) == 0 && len(lastarg(rpcWithControl, 1)) == 0 && len(lastarg(rpcWithControl, 2)) == 0 && len(lastarg(rpcWithControl, 5)) == 0 &&
+//@        len(lastarg(rpcWithControl, 3)) == 0 && len(lastarg(rpcWithControl, 4)) == len(topics)
+//@   loop 1 step one-rpc-per-grafted-peer: calls((*GossipSubRouter).sendRPC) == iter(calls((*GossipSubRouter).sendRPC)) + 1 && !(p in toprune) &&
+//@        (forall q string :: q != p ==> (q in toprune) == iter(q in toprune) && toprune[q] == iter(toprune[q])) &&
+//@        calls((*GossipSubRouter).makePrune) - iter(calls((*GossipSubRouter).makePrune)) == ite(iter(p in toprune), len(iter(toprune[p])), 0)
+//@   loop 4 step one-rpc-per-pruned-peer: calls((*GossipSubRouter).sendRPC) == iter(calls((*GossipSubRouter).sendRPC)) + 1 &&
+//@        calls((*GossipSubRouter).makePrune) - iter(calls((*GossipSubRouter).makePrune)) == len(topics)
